@@ -48,7 +48,7 @@ BOOLISH = ["b", "0..0", "1..1", "0..1"]
 
 # route templates over x0,x1,x2 (+ constants); {K},{N} are filled from small grids
 ARITH = ["add x0 x1", "add x0 c:{K}", "add c:{K} x1", "sub x0 x1", "sub x0 c:{K}", "sub c:{K} x1", "mul x0 x1", "mul x0 c:{K}", "mul c:{K} x1",
-         "mod x0 x1", "abs x0", "min x0,x1", "min x0,x1,x2", "min x0", "max x0,x1", "max x0,x1,x2", "max x2", "sum x0,x1", "sum x0,x1,x2", "sum x0", "sum -",
+         "mod x0 x1", "mod x0 c:{K}", "mod c:{K} x1", "mod c:{N} c:{K}", "add c:{K} c:{N}", "sub c:{K} c:{N}", "mul c:{K} c:{N}", "abs x0", "min x0,x1", "min x0,x1,x2", "min x0", "max x0,x1", "max x0,x1,x2", "max x2", "sum x0,x1", "sum x0,x1,x2", "sum x0", "sum -",
          "min x0,x0", "sum x0,x0", "add x0 x0", "mul x0 x0", "sub x0 x0"]
 GLOBAL = ["alldiff x0,x1", "alldiff x0,x1,x2", "alldiff x0", "alldiff -", "alleq x0,x1", "alleq x0,x1,x2", "alleq x0", "alleq -",
           "element x0,x1 x2 x0", "element x0,x1 x2 x1", "element x0,x1,x0 x2 x1", "aelement x2 x0,x1 x0", "element - x2 x0",
